@@ -41,7 +41,7 @@ fn main() {
                 let run = w.run(manifest, plan.proofs(w));
                 txs += 1;
                 if let Some(p) = &run.panic {
-                    println!("PANIC {} :: {}", p, plan.describe(w));
+                    eprintln!("PANIC {} :: {}", p, plan.describe(w));
                     continue;
                 }
                 let r = run.receipt();
@@ -57,7 +57,7 @@ fn main() {
                 }
                 if let Err(e) = plan.check_expect(r) {
                     mis += 1;
-                    println!("MISPREDICT {} :: {}", e, plan.describe(w));
+                    eprintln!("MISPREDICT {} :: {}", e, plan.describe(w));
                 }
                 if r.is_commit_success() {
                     model = plan.commit_success(r);
@@ -65,7 +65,7 @@ fn main() {
             }
             let probs = Totals::scan(w.db()).supply_problems();
             if !probs.is_empty() {
-                println!("SUPPLY {:?}", probs);
+                eprintln!("SUPPLY {:?}", probs);
             }
         });
     }
@@ -78,22 +78,19 @@ fn main() {
     }
 
     // timings
+    for seed in [7u64, 8, 9, 10, 11, 12, 13, 14] {
     with_world("dev", no_genesis, build_world, |w| {
         let model = Model::new(w);
-        let t = tape(7, 4000);
+        let t = tape(seed, 4000);
         let mut g = Gen::new(&t);
         let plan = gen_plan(&mut g, w, &model, &Opts::history());
         eprintln!("timing plan: {}", plan.describe(w));
         let nonce = w.sim.next_transaction_nonce();
         let exe = executable(w, plan.render(w), nonce, &plan.proofs(w)).unwrap();
-        let t = Instant::now();
         let cold = new_modules();
-        eprintln!("new_modules: {:?}", t.elapsed());
         for (name, kt, cb, et, di) in [
             ("plain", false, false, None, false),
             ("plain again", false, false, None, false),
-            ("cost breakdown", false, true, None, false),
-            ("exec trace 1", false, false, Some(1usize), false),
             ("exec trace max", false, false, Some(MAX_EXECUTION_TRACE_DEPTH), false),
             ("debug info", false, false, None, true),
             ("kernel trace", true, false, None, false),
@@ -107,16 +104,16 @@ fn main() {
             let r = exec(w.db(), &cold, &cfg, &exe).unwrap();
             eprintln!("{:>16}: {:?} {}", name, t.elapsed(), outcome_string(&r).chars().take(40).collect::<String>());
         }
-        let t = Instant::now();
-        let d = dump(w.db());
-        eprintln!("dump: {:?} ({} substates)", t.elapsed(), d.len());
         // injection K
         let snap = w.sim.create_snapshot();
-        for k in [0u64, 1, 10, 100, 300, 1000, 3000, 10000] {
-            let t = Instant::now();
+        let mut k = 64u64;
+        loop {
             let r = w.sim.execute_manifest_with_injected_error(plan.render(w), plan.proofs(w), k);
-            eprintln!("inject {:>6}: {:?} {}", k, t.elapsed(), outcome_string(&r).chars().take(80).collect::<String>());
             w.sim.restore_snapshot(snap.clone());
+            if r.is_commit_success() || k > 1 << 20 { break; }
+            k *= 2;
         }
+        eprintln!("K <= {}", k);
     });
+    }
 }
